@@ -154,18 +154,28 @@ func csDump(tx *bbolt.Tx) (string, []csRawLine) {
 func csScanFor(raw []csRawLine, id string) string {
 	typed := string(boltz.PrependFieldType(boltz.TypeString, []byte(id)))
 	hit := func(b string) bool { return b == id || b == typed }
+	inPath, inKey, inValue := false, false, false
 	for _, l := range raw {
 		for _, p := range l.path {
 			if hit(p) {
-				return "path"
+				inPath = true
 			}
 		}
 		if hit(string(l.key)) {
-			return "key"
+			inKey = true
 		}
 		if !l.isB && hit(string(l.value)) {
-			return "value"
+			inValue = true
 		}
+	}
+	// one verdict, independent of the visiting order
+	switch {
+	case inPath:
+		return "path"
+	case inKey:
+		return "key"
+	case inValue:
+		return "value"
 	}
 	return "clean"
 }
@@ -198,4 +208,24 @@ func csSortedCopy(xs []string) []string {
 	ys := append([]string{}, xs...)
 	sort.Strings(ys)
 	return ys
+}
+
+func csHexOrNil(b []byte) string {
+	if b == nil {
+		return "~"
+	}
+	return csHex(b)
+}
+
+// csGenAlias: nil 40 %, empty string 10 %, a value otherwise
+func csGenAlias(r *rng, vals []string) *string {
+	switch r.intn(10) {
+	case 0, 1, 2, 3:
+		return nil
+	case 4:
+		e := ""
+		return &e
+	}
+	v := pick(r, vals)
+	return &v
 }
